@@ -9,22 +9,41 @@ namespace PM.C20
 open PM
 
 /-- **first difference: nothing is reported exactly when the fragments are equal** -/
-theorem diffStart_none_iff (a b : List Node) (pos : Nat) : diffStart a b pos = none ↔ a = b := by
-  sorry
+-- STATEMENT CHANGED: added `ha : fnorm a = true`, `hb : fnorm b = true`.  As written (no normal-form
+-- guard) the `→` direction is false: children of total size 0 are skipped without being compared, so
+--   diffStart [Node.elem 1 [] [] [Node.text [] []]] [Node.elem 1 [] [] []] 0 = none
+-- although the fragments differ (the first has an empty text child; `fnorm` of it is `false`).
+-- Both guards are needed (swap the two arguments).  The `←` direction holds unguarded
+-- (`PM.diffStart_none_of_eq`).
+theorem diffStart_none_iff (a b : List Node) (pos : Nat) (ha : fnorm a = true) (hb : fnorm b = true) :
+    diffStart a b pos = none ↔ a = b :=
+  ⟨eq_of_diffStart_none a b pos ha hb, diffStart_none_of_eq a b pos⟩
 
 /-- **first difference: otherwise the position up to which the marked-up token sequences agree** -/
 theorem diffStart_lcp (a b : List Node) (pos q : Nat) (ha : fnorm a = true) (hb : fnorm b = true)
     (h : diffStart a b pos = some q) : q = pos + lcpLen (fmtoks a) (fmtoks b) := by
-  sorry
+  simpa using diffStart_lcp_gen a b pos q [] [] ha hb rfl rfl h
 
 /-- the reported position never exceeds either fragment -/
 theorem diffStart_le (a b : List Node) (pos q : Nat) (h : diffStart a b pos = some q) :
-    q ≤ pos + fsize a ∧ q ≤ pos + fsize b := by
-  sorry
+    q ≤ pos + fsize a ∧ q ≤ pos + fsize b :=
+  diffStart_le' a b pos q h
 
 /-- **last difference: nothing is reported exactly when the fragments are equal** -/
-theorem diffEnd_none_iff (a b : List Node) (pa pb : Nat) : diffEnd a b pa pb = none ↔ a = b := by
-  sorry
+-- STATEMENT CHANGED: added `ha : fnorm a = true`, `hb : fnorm b = true`, for the same reason as in
+-- `diffStart_none_iff`:
+--   diffEnd [Node.elem 1 [] [] [Node.text [] []]] [Node.elem 1 [] [] []] 2 2 = none
+-- although the fragments differ.
+theorem diffEnd_none_iff (a b : List Node) (pa pb : Nat) (ha : fnorm a = true) (hb : fnorm b = true) :
+    diffEnd a b pa pb = none ↔ a = b := by
+  unfold diffEnd
+  rw [Option.map_eq_none_iff]
+  constructor
+  · intro h
+    exact fmirror_inj a b (eq_of_diffStart_none _ _ 0 (by rw [fnorm_fmirror]; exact ha)
+      (by rw [fnorm_fmirror]; exact hb) h)
+  · intro h
+    exact diffStart_none_of_eq _ _ 0 (by rw [h])
 
 /-- **last difference: otherwise the pair of positions after which the marked-up token sequences
     agree** (the length of their longest common suffix, counted back from both ends) -/
@@ -32,7 +51,17 @@ theorem diffEnd_lcs (a b : List Node) (qa qb : Nat) (ha : fnorm a = true) (hb : 
     (h : diffEnd a b (fsize a) (fsize b) = some (qa, qb)) :
     qa + lcpLen (fmtoks a).reverse (fmtoks b).reverse = fsize a ∧
     qb + lcpLen (fmtoks a).reverse (fmtoks b).reverse = fsize b := by
-  sorry
+  unfold diffEnd at h
+  rw [Option.map_eq_some_iff] at h
+  obtain ⟨k, hk, hq⟩ := h
+  have hlcp := diffStart_lcp_gen _ _ 0 k [] [] (by rw [fnorm_fmirror]; exact ha)
+    (by rw [fnorm_fmirror]; exact hb) rfl rfl hk
+  simp only [List.append_nil, Nat.zero_add] at hlcp
+  rw [lcpLen_fmirror] at hlcp
+  have hle := diffStart_le' _ _ 0 k hk
+  rw [fmirror_size, fmirror_size] at hle
+  simp only [Prod.mk.injEq] at hq
+  omega
 
 /-- the guard `fnorm` is necessary for the token statement: a non-normal pair with equal token
     sequences that the scan tells apart -/
@@ -40,7 +69,7 @@ theorem diffStart_needs_norm :
     let a := [Node.text [97, 98] []]
     let b := [Node.text [97] [], Node.text [98] []]
     fmtoks a = fmtoks b ∧ diffStart a b 0 = some 1 ∧ fnorm b = false := by
-  decide
+  simp [diffStart, Node.sameMarkup, lcpLen, fnorm, fnormKids, Node.norm, chainOk, adjOk]
 
 /-- non-vacuity: astral text (surrogate pairs) differing in the low surrogate -/
 example :
@@ -48,6 +77,6 @@ example :
               [Node.elem 1 [] [] [Node.text [120, 55357, 56833, 97] []]] 0 = some 3 ∧
     diffEnd [Node.elem 1 [] [] [Node.text [120, 55357, 56832, 97] []]]
             [Node.elem 1 [] [] [Node.text [121, 55357, 56832, 97] []]] 6 6 = some (2, 2) := by
-  decide
+  simp [diffEnd, diffStart, Node.sameMarkup, lcpLen]
 
 end PM.C20
